@@ -3,7 +3,7 @@ import Props.C05
 /-!
 # C05 (translator half) — the generated text of `ecdh.py` *is* the state machine of the C05 theorems
 
-`Generated/EcdhSkel.lean` is rewritten from `src/ecdsa/ecdh.py` on every run (`harness/translate/gen_ecdh.py`): each
+`Generated/EcdhSkel.lean` is rewritten from `src/ecdsa/ecdh.py` on every run (`harness/translate/gen_ecdhskel.py`): each
 method of class `ECDH` as a list of statements.  `EcdhSkel.stepProg` interprets them.  `generated_is_model`: for every
 environment, state and call, interpreting the generated program gives exactly `Ecdh.step` — so every theorem of
 `Props/C05*.lean` is a theorem about the statements the source consists of *now*; if `ecdh.py` changes, either this
@@ -15,9 +15,9 @@ open Ecdh EcdhSkel
 variable {Crv Pt Ent : Type} [DecidableEq Crv]
 
 theorem sharedSecret_generated (env : Env Crv Pt Ent) (s : State Crv Pt) :
-    sharedSecretOf env Gen.Ecdh.prog s = getSharedSecret env s := by
+    sharedSecretOf env Gen.EcdhProg.prog s = getSharedSecret env s := by
   unfold sharedSecretOf getSharedSecret
-  simp only [Gen.Ecdh.prog, exec, evalCond]
+  simp only [Gen.EcdhProg.prog, exec, evalCond]
   cases hp : s.priv with
   | none => simp
   | some sk =>
@@ -52,10 +52,10 @@ theorem sharedSecret_generated (env : Env Crv Pt Ent) (s : State Crv Pt) :
         simp only [h12, ne_eq, not_false_eq_true, if_true]
 
 theorem loadPriv_generated (env : Env Crv Pt Ent) (cal : Callees Crv Pt Ent) (s : State Crv Pt) (k : SKey Crv Pt) :
-    exec env cal (.sk k) s none Gen.Ecdh.prog.loadPrivateKey = loadPrivate s k := by
+    exec env cal (.sk k) s none Gen.EcdhProg.prog.loadPrivateKey = loadPrivate s k := by
   obtain ⟨cv, pv, pb⟩ := s
   unfold loadPrivate
-  simp only [Gen.Ecdh.prog, exec, evalCond, evalCurve, bind, Except.bind]
+  simp only [Gen.EcdhProg.prog, exec, evalCond, evalCurve, bind, Except.bind]
   cases cv with
   | none => simp
   | some c =>
@@ -65,10 +65,10 @@ theorem loadPriv_generated (env : Env Crv Pt Ent) (cal : Callees Crv Pt Ent) (s 
     · simp [h]
 
 theorem loadPub_generated (env : Env Crv Pt Ent) (cal : Callees Crv Pt Ent) (s : State Crv Pt) (k : VKey Crv Pt) :
-    exec env cal (.vk k) s none Gen.Ecdh.prog.loadReceivedPublicKey = loadPublic s k := by
+    exec env cal (.vk k) s none Gen.EcdhProg.prog.loadReceivedPublicKey = loadPublic s k := by
   obtain ⟨cv, pv, pb⟩ := s
   unfold loadPublic
-  simp only [Gen.Ecdh.prog, exec, evalCond, evalCurve, bind, Except.bind]
+  simp only [Gen.EcdhProg.prog, exec, evalCond, evalCurve, bind, Except.bind]
   cases cv with
   | none => simp
   | some c =>
@@ -79,15 +79,15 @@ theorem loadPub_generated (env : Env Crv Pt Ent) (cal : Callees Crv Pt Ent) (s :
 
 /-- **generated_is_model** — every public method: the interpreted generated statements = the hand-written model -/
 theorem generated_is_model (env : Env Crv Pt Ent) (s : State Crv Pt) (op : Op Crv Pt Ent) :
-    stepProg env Gen.Ecdh.prog s op = step env s op := by
+    stepProg env Gen.EcdhProg.prog s op = step env s op := by
   cases op with
-  | setCurve c => simp [stepProg, step, Gen.Ecdh.prog, exec]
+  | setCurve c => simp [stepProg, step, Gen.EcdhProg.prog, exec]
   | genPriv e =>
     simp only [stepProg, step]
     cases hc : s.curve with
-    | none => simp [Gen.Ecdh.prog, exec, evalCond, hc]
+    | none => simp [Gen.EcdhProg.prog, exec, evalCond, hc]
     | some c =>
-      simp only [Gen.Ecdh.prog, exec, evalCond, hc, Option.isNone_some, runSkCtor, viaLoader]
+      simp only [Gen.EcdhProg.prog, exec, evalCond, hc, Option.isNone_some, runSkCtor, viaLoader]
       cases env.generate c e with
       | error err => rfl
       | ok k => exact loadPriv_generated env _ s k
@@ -95,52 +95,52 @@ theorem generated_is_model (env : Env Crv Pt Ent) (s : State Crv Pt) (op : Op Cr
   | loadPrivBytes b =>
     simp only [stepProg, step]
     cases hc : s.curve with
-    | none => simp [Gen.Ecdh.prog, exec, evalCond, hc]
+    | none => simp [Gen.EcdhProg.prog, exec, evalCond, hc]
     | some c =>
-      simp only [Gen.Ecdh.prog, exec, evalCond, hc, Option.isNone_some, runSkCtor, viaLoader]
+      simp only [Gen.EcdhProg.prog, exec, evalCond, hc, Option.isNone_some, runSkCtor, viaLoader]
       cases env.skFromString c b with
       | error err => rfl
       | ok k => exact loadPriv_generated env _ s k
   | loadPrivDer b =>
-    simp only [stepProg, step, Gen.Ecdh.prog, exec, runSkCtor, viaLoader]
+    simp only [stepProg, step, Gen.EcdhProg.prog, exec, runSkCtor, viaLoader]
     cases env.skFromDer b with
     | error err => rfl
     | ok k => exact loadPriv_generated env _ s k
   | loadPrivPem b =>
-    simp only [stepProg, step, Gen.Ecdh.prog, exec, runSkCtor, viaLoader]
+    simp only [stepProg, step, Gen.EcdhProg.prog, exec, runSkCtor, viaLoader]
     cases env.skFromPem b with
     | error err => rfl
     | ok k => exact loadPriv_generated env _ s k
   | getPub =>
-    simp only [stepProg, step, Gen.Ecdh.prog, exec]
+    simp only [stepProg, step, Gen.EcdhProg.prog, exec]
     cases s.priv <;> rfl
   | loadPub k => exact loadPub_generated env _ s k
   | loadPubBytes b =>
     simp only [stepProg, step]
     cases hc : s.curve with
-    | none => simp [Gen.Ecdh.prog, exec, runVkCtor, hc]
+    | none => simp [Gen.EcdhProg.prog, exec, runVkCtor, hc]
     | some c =>
-      simp only [Gen.Ecdh.prog, exec, hc, runVkCtor, viaLoader]
+      simp only [Gen.EcdhProg.prog, exec, hc, runVkCtor, viaLoader]
       cases env.vkFromString c b with
       | error err => rfl
       | ok k => exact loadPub_generated env _ s k
   | loadPubDer b =>
-    simp only [stepProg, step, Gen.Ecdh.prog, exec, runVkCtor, viaLoader]
+    simp only [stepProg, step, Gen.EcdhProg.prog, exec, runVkCtor, viaLoader]
     cases env.vkFromDer b with
     | error err => rfl
     | ok k => exact loadPub_generated env _ s k
   | loadPubPem b =>
-    simp only [stepProg, step, Gen.Ecdh.prog, exec, runVkCtor, viaLoader]
+    simp only [stepProg, step, Gen.EcdhProg.prog, exec, runVkCtor, viaLoader]
     cases env.vkFromPem b with
     | error err => rfl
     | ok k => exact loadPub_generated env _ s k
   | secret =>
-    simp only [stepProg, step, show Gen.Ecdh.prog.generateSharedsecret = [Stmt.retSharedSecret] from rfl, exec, callees,
+    simp only [stepProg, step, show Gen.EcdhProg.prog.generateSharedsecret = [Stmt.retSharedSecret] from rfl, exec, callees,
       sharedSecret_generated]
     cases getSharedSecret env s <;> rfl
   | secretBytes =>
     simp only [stepProg, step,
-      show Gen.Ecdh.prog.generateSharedsecretBytes = [Stmt.retSecretBytes .priv .fieldP] from rfl, exec, callees,
+      show Gen.EcdhProg.prog.generateSharedsecretBytes = [Stmt.retSecretBytes .priv .fieldP] from rfl, exec, callees,
       sharedSecret_generated, secretBytes]
     cases hg : getSharedSecret env s with
     | error e => rfl
@@ -154,7 +154,7 @@ theorem generated_is_model (env : Env Crv Pt Ent) (s : State Crv Pt) (op : Op Cr
 
 /-- hence the history-level functions coincide, and e.g. `secret_only_if_agreed` speaks about the generated program -/
 theorem generated_run (env : Env Crv Pt Ent) (s : State Crv Pt) (ops : List (Op Crv Pt Ent)) :
-    ops.foldl (fun st op => (stepProg env Gen.Ecdh.prog st op).1) s = run env s ops := by
+    ops.foldl (fun st op => (stepProg env Gen.EcdhProg.prog st op).1) s = run env s ops := by
   induction ops generalizing s with
   | nil => rfl
   | cons op ops ih =>
@@ -164,9 +164,9 @@ theorem generated_run (env : Env Crv Pt Ent) (s : State Crv Pt) (ops : List (Op 
 
 /-- non-vacuity: the generated program has the fourteen methods, and on the toy environment of `Props/C05.lean` a complete
 exchange history run through the *generated* statements yields the secret 10 -/
-example : Gen.Ecdh.prog.getSharedSecret.length = 6 ∧
-    (stepProg C05.Toy.env Gen.Ecdh.prog
-      (List.foldl (fun st op => (stepProg C05.Toy.env Gen.Ecdh.prog st op).1) C05.Toy.fresh
+example : Gen.EcdhProg.prog.getSharedSecret.length = 6 ∧
+    (stepProg C05.Toy.env Gen.EcdhProg.prog
+      (List.foldl (fun st op => (stepProg C05.Toy.env Gen.EcdhProg.prog st op).1) C05.Toy.fresh
         [.loadPriv C05.Toy.skA, .loadPubBytes [1]]) .secret).2 = .ok (.int 10) := ⟨rfl, rfl⟩
 
 end C05s
